@@ -22,17 +22,14 @@ SPFS = [1, 2, 3, 4, 5, 7, 12]
 WINDOPS = ["EQ", "GE", "GT", "LE", "LT", "NE", "SET", "CLR"]
 
 TAGKEY = {
-    "here": "getdata/internal-sample-minus-one-taken-for-GD_HERE",
-    "rawneg": "getdata/raw-window-before-sample-zero",
     "alloczero": "getdata/zero-length-buffer-internal-error",
     "mplexseek": "getdata/mplex-lookback-reseek-range-error",
     "empty2": "getdata/second-input-empty",
     "unaligned": "getdata/multirate-unaligned-start",
-    "lincomrate": "getdata/lincom-multirate-count",
     "mplexrate": "getdata/mplex-multirate",
     "rawpad": "getdata/raw-bof-pad-native-type",
 }
-TAGPRIO = ["here", "rawneg", "alloczero", "mplexseek", "empty2", "lincomrate", "unaligned", "mplexrate", "rawpad"]
+TAGPRIO = ["alloczero", "mplexseek", "empty2", "unaligned", "mplexrate", "rawpad"]
 
 
 def dbits(x):
@@ -500,9 +497,9 @@ def run_cases(cases, exe, drv, root, jobs=16, want_extents=False):
                 c.nfr = (body[ip] if ip < len(body) else "", ml[mp] if mp < len(ml) else "")
                 ip += 1
                 mp += 1
-            # a query that reaches the LINCOM count inflation overruns heap buffers: everything
-            # after it in the same process is unreliable, so such cases are re-run query by query
-            tainted = any(mm is not None and "lincomrate" in mm[2] for mm in c.mres) or any(r[1]["over"] for r in c.res)
+            # a query that wrote past the caller's buffer may have damaged the heap: everything after it
+            # in the same process is unreliable, so such cases are re-run query by query
+            tainted = any(r[1]["over"] for r in c.res)
             if c.crashed or tainted:
                 crashed.append(c)
     # second pass: every query of a crashed case in its own process
@@ -550,8 +547,8 @@ def judge(chk, cases, stats):
             continue
         if c.crashed and not getattr(c, "single_crash", 0):
             # the sequence of queries crashed but no single query does: heap damage detected late
-            if any("lincomrate" in r[4] or "empty2" in r[4] for r in c.res):
-                stats["bykey"][TAGKEY["lincomrate"]] = stats["bykey"].get(TAGKEY["lincomrate"], 0) + 1
+            if any("empty2" in r[4] for r in c.res):
+                stats["bykey"][TAGKEY["empty2"]] = stats["bykey"].get(TAGKEY["empty2"], 0) + 1
             else:
                 chk.violation("getdata/crash/sequence", "a sequence of gd_getdata calls crashes the process although no single call does\n" + c.format_text(),
                               {"kind": "crash", "format": c.format_text(), "queries": c.qs})
@@ -560,11 +557,8 @@ def judge(chk, cases, stats):
             stats["queries"] += 1
             if im.get("crash"):
                 stats["crashes"] = stats.get("crashes", 0) + 1
-                # a crash is the heap overflow of the LINCOM count inflation, or new
-                # attributed to the listed memory-safety findings only where the query reaches them
-                if "lincomrate" in tags:
-                    key = TAGKEY["lincomrate"]
-                elif "empty2" in tags:
+                # attributed to the listed use of an unwritten buffer only where the query reaches it
+                if "empty2" in tags:
                     key = TAGKEY["empty2"]
                 else:
                     key = "getdata/crash/%s" % ("covered" if not tags else ",".join(tags))
@@ -610,10 +604,9 @@ def judge(chk, cases, stats):
             t0 = [t for t in TAGPRIO if t in judged][0]
             key = TAGKEY[t0]
             # refinement: the failure must be the one the model of the code predicts.  Not applied where the
-            # outcome depends on state or memory the model does not carry (GD_HERE: the I/O position; an
-            # unwritten second-input buffer: whatever malloc returned steers MPLEX/WINDOW decisions)
-            # (likewise the LINCOM count inflation: it overruns heap buffers)
-            if not e_model and t0 != "here" and "empty2" not in tags and "lincomrate" not in tags:
+            # outcome depends on memory the model does not carry (an unwritten second-input buffer:
+            # whatever malloc returned steers MPLEX/WINDOW decisions)
+            if not e_model and "empty2" not in tags:
                 key += "/unpredicted"
             stats["bykey"][key] = stats["bykey"].get(key, 0) + 1
             if key not in seen_keys:
@@ -681,10 +674,10 @@ def witness_cases(rng):
     return W
 
 
+# 900003 (LINCOM count), 900004 (window before sample 0) and 900007 (sample -1 / GD_HERE) were defects of the
+# pinned tree that have been repaired in /repo since; they stay as regression witnesses (any failure is a violation)
 WITNESS_KEYS = {900001: "getdata/multirate-unaligned-start", 900002: "getdata/second-input-empty",
-                900003: "getdata/lincom-multirate-count", 900004: "getdata/raw-window-before-sample-zero",
                 900005: "getdata/raw-bof-pad-native-type", 900006: "getdata/mplex-multirate",
-                900007: "getdata/internal-sample-minus-one-taken-for-GD_HERE",
                 900008: "getdata/zero-length-buffer-internal-error",
                 900009: "getdata/mplex-lookback-reseek-range-error"}
 
@@ -706,6 +699,7 @@ def main():
         "real-valued data only (no COMPLEX64/128 RAW, no complex scalars, no representation suffixes)",
         "unencoded RAW files (the codecs are C02/C04's subject); LINTERP tables strictly increasing, entering the model as parsed rows",
         "MPLEX look-back unlimited (gd_mplex_lookback(GD_LOOKBACK_ALL)); the last-sample cache is not modelled (each query is also correct without it)",
+        "first_sample >= 0 at the public entry (GD_HERE is C17's subject)",
         "samples at negative positions reaching an MPLEX are implementation dependent by dirfile-format(5) and not judged",
         "a value the model marks undefined (C undefined behaviour in a conversion, memory never written) is a wild card in comparisons",
     ]
@@ -741,7 +735,7 @@ def main():
         for c in cases:
             if c.idx in WITNESS_KEYS:
                 for (q, im, model, spec, tags) in getattr(c, "res", []):
-                    if not same(im, spec, q[3], False) and (same(im, model, q[3], True) or "here" in tags):
+                    if not same(im, spec, q[3], False) and same(im, model, q[3], True):
                         chk.known_confirm(WITNESS_KEYS[c.idx], "witness %d reproduced" % c.idx)
         allcases += cases[:3]
         shutil.rmtree(broot, ignore_errors=True)
